@@ -2005,6 +2005,11 @@ func flt_filterPreds(repo string, _ []string) (string, error) {
 		return "", err
 	}
 	sb.WriteString(hs)
+	fs, err := t.fileFacts(repo)
+	if err != nil {
+		return "", err
+	}
+	sb.WriteString(fs)
 
 	paths, err := t.dslPaths(repo + "/dsl/dsl.go")
 	if err != nil {
